@@ -352,7 +352,7 @@ func dayLeaf(c *Ctx, recv ssa.Value, env *dayEnv) leafX {
 
 func r13_5(c *Ctx, r *Report) {
 	const rule = "R13.5"
-	r.rule(rule, "The seasonal counters as decision tables over a day algebra (days as numbers, the consulted terms at chosen day numbers, the day stem of day k being (g+k) mod 10; the evaluator follows the code's own branches with helpers inline, no library code runs). Nine-nines: with the start at this winter's solstice day, or the previous winter's when the day precedes it, the count is absent unless start <= day < start+81 and otherwise is (NUMBER[d/9+1]+\"九\", d%9+1) for d = day-start. Dog days: the first period starts 20 days after the first geng day on or after the summer solstice; d = day - that start; d<0 none; d<10 (初伏,d+1); d<20 (中伏,d-9); then if Liqiu is strictly after the fifth geng day d<30 is (中伏,d-9) and d<40 is (末伏,d-29), else d<30 is (末伏,d-19); none afterwards. Cold Food is the day before Qingming; the spring and autumn She days are 40 days after the first wu day on or after Lichun and Liqiu. The pentad is HOU[min(days since the whole-day previous term / 5, len(HOU)-1)] after the term's name. All orderings are taken on whole days.")
+	r.rule(rule, "The seasonal counters as decision tables over a day algebra (days as numbers, the consulted terms at chosen day numbers, the day stem of day k being (g+k) mod 10; the evaluator follows the code's own branches with helpers inline, no library code runs). Nine-nines: with the start at this winter's solstice day, or the previous winter's when the day precedes it, the count is absent unless start <= day < start+81 and otherwise is (NUMBER[d/9+1]+\"九\", d%9+1) for d = day-start. Dog days: the first period starts 20 days after the first geng day on or after the summer solstice; d = day - that start; d<0 none; d<10 (初伏,d+1); d<20 (中伏,d-9); then if Liqiu is strictly after the fifth geng day d<30 is (中伏,d-9) and d<40 is (末伏,d-29), else d<30 is (末伏,d-19); none afterwards. Cold Food is the day before Qingming; the spring and autumn She days are 40 days after the first wu day on or after Lichun and Liqiu. The pentad is HOU[min(days since the whole-day previous term / 5, len(HOU)-1)] after the term's name, and its phenological sign is WU_HOU[3*(position of that term in JIE_QI) + the same pentad number] (the search for the term as a table over the iteration number). All orderings are taken on whole days.")
 	number := c.tabStrs(r, rule, "LunarUtil", "NUMBER")
 	gan := c.tabStrs(r, rule, "LunarUtil", "GAN")
 	stemPos := func(s string) int64 {
@@ -522,5 +522,38 @@ func r13_5(c *Ctx, r *Report) {
 		}
 		report(fn, "calendar.(*Lunar).GetHou names the pentad of the whole-day previous term", n, bad, problems)
 	}
-	r.floor(rule, 4)
+	wuHou := c.tabStrs(r, rule, "LunarUtil", "WU_HOU")
+	jq := c.tabStrs(r, rule, "calendar", "JIE_QI")
+	if fn := c.Fn(r, rule, "calendar.(*Lunar).GetWuHou"); fn != nil && len(fn.Params) == 1 && len(wuHou) == 72 && len(jq) == 24 {
+		problems := map[string]bool{}
+		var bad []string
+		n := 0
+		for ti, name := range jq {
+			for _, now := range []int64{0, 4, 5, 9, 10, 14, 15, 16} {
+				if len(bad) >= 4 || len(problems) > 0 {
+					continue
+				}
+				env := &dayEnv{now: now + 7, prevTerm: &absTerm{name, 7}, problems: problems}
+				ev := &evaluator{leaf: dayLeaf(c, fn.Params[0], env), inline: func(callee *ssa.Function) bool {
+					return inlineLibrary(callee) && callee.Name() != "getNearJieQi"
+				}, counted: 64}
+				res, outcome := ev.run(fn, nil, nil, nil, nil)
+				n++
+				k := now / 5
+				if k > 2 {
+					k = 2
+				}
+				want := wuHou[(int64(ti)*3+k)%72]
+				got := outcome + " " + ev.fail
+				if outcome == "return" && len(res) == 1 {
+					got = fmt.Sprint(res[0])
+				}
+				if got != want {
+					bad = append(bad, fmt.Sprintf("term %s (no. %d), day +%d: %q, stated %q", name, ti, now, got, want))
+				}
+			}
+		}
+		report(fn, "calendar.(*Lunar).GetWuHou names the phenological sign of the pentad", n, bad, problems)
+	}
+	r.floor(rule, 5)
 }
